@@ -756,6 +756,9 @@ func (e *Engine) computeEffects() {
 				if mc, ok := ins.(*ssa.MakeClosure); ok {
 					e.addrTaken[mc.Fn.(*ssa.Function)] = true
 				}
+				if _, ok := ins.(*ssa.DebugRef); ok {
+					continue
+				}
 				for _, op := range ins.Operands(nil) {
 					if g, ok := (*op).(*ssa.Function); ok {
 						if ci, isCall := ins.(ssa.CallInstruction); isCall && ci.Common().Value == g {
@@ -1045,6 +1048,9 @@ func (e *Engine) scanObligations(p string) []*Obligation {
 				}
 				// address-taken uses
 				for _, ins := range b.Instrs {
+					if _, ok := ins.(*ssa.DebugRef); ok {
+						continue
+					}
 					for _, op := range ins.Operands(nil) {
 						if g, ok := (*op).(*ssa.Function); ok {
 							if ci, isCall := ins.(ssa.CallInstruction); isCall && ci.Common().Value == g {
